@@ -1253,7 +1253,9 @@ func (p *P) putFamily() (family []*ssa.Function, wrappers []*ssa.Function) {
 					}
 				}
 			}
-			if wraps && !p.wakesAfterEnqueue(g, calls) {
+			// an exported entry point has callers outside the package: it can never delegate the wake-up
+			exported := g.Parent() == nil && g.Object() != nil && g.Object().Exported()
+			if wraps && !exported && !p.wakesAfterEnqueue(g, calls) {
 				family = append(family, g)
 				wrappers = append(wrappers, g)
 			}
